@@ -23,6 +23,9 @@ import pandas as pd  # noqa: E402
 import dask  # noqa: E402
 
 dask.config.set({"dataframe.query-planning": True})
+# every compute the planner itself triggers (quantile sampling, len, ...) runs on the
+# synchronous scheduler: deterministic and no thread pools in the forked children
+dask.config.set(scheduler="synchronous")
 import dask_expr  # noqa: E402
 
 assert os.path.abspath(dask_expr.__file__).startswith(os.path.abspath(REPO) + os.sep), (
